@@ -5,6 +5,8 @@ import (
 	"go/ast"
 	"go/token"
 	"go/types"
+	"os"
+	"strconv"
 	"strings"
 
 	"golang.org/x/tools/go/ssa"
@@ -64,7 +66,6 @@ func guardOf(env *Env, x ast.Expr) string {
 				env.fail(y, "unknown type in type assertion")
 			}
 			env.vc.declIface()
-			env.vc.declIface()
 			return eq(app("itag", base.term()), env.vc.typeTag(t))
 		default:
 			return ""
@@ -112,7 +113,17 @@ func (fr *Frame) evalModLoc(env *Env, cl Clause) (out []modLoc) {
 		if !ok {
 			env.fail(x, "modifies x[*] needs a slice or a map")
 		}
-		return []modLoc{{root: "E|" + canon(sl.Elem()), base: tv.V.(*SliceV).Arr}}
+		ml := modLoc{root: "E|" + canon(sl.Elem()), base: tv.V.(*SliceV).Arr}
+		// p.f[*] with p == nil denotes no memory (the slice header itself does not exist)
+		if sel, ok := x.X.(*ast.SelectorExpr); ok {
+			func() {
+				defer func() { recover() }()
+				if pp, ok := env.evalAddr(sel).V.(Ptr); ok && pp.Base != "" {
+					ml.guard = not(eq(pp.Base, "0"))
+				}
+			}()
+		}
+		return []modLoc{ml}
 	case *ast.StarExpr:
 		tv := env.eval(x.X)
 		p := tv.V.(Ptr)
@@ -180,6 +191,20 @@ func (fr *Frame) evalModLoc(env *Env, cl Clause) (out []modLoc) {
 			}
 		}
 	case *ast.SelectorExpr:
+		// pkg.Global : a (ghost) global variable of another package
+		if id, ok := x.X.(*ast.Ident); ok {
+			if _, isName := env.names[id.Name]; !isName && env.lookupPkgObj(id.Name) == nil {
+				if ip := env.importedPkg(id.Name); ip != nil {
+					if o, ok := ip.Scope().Lookup(x.Sel.Name).(*types.Var); ok {
+						for _, l := range leaves(o.Type()) {
+							name := "G|" + o.Pkg().Path() + "." + o.Name() + "|" + l.Path
+							fr.vc.heap(env.st, name, fr.vc.heapSortFor(name, l.Sort))
+						}
+						return []modLoc{{root: "G|" + o.Pkg().Path() + "." + o.Name(), base: "0"}}
+					}
+				}
+			}
+		}
 		tv := env.evalAddr(x)
 		p := tv.V.(Ptr)
 		return []modLoc{{root: p.Root, path: p.Path, base: p.Base}}
@@ -401,8 +426,11 @@ func (fr *Frame) execCall(c *ssa.CallCommon, pos token.Pos, st *State, instr *ss
 	if isLockCall(name) {
 		return &StructV{}
 	}
-	if v, ok := fr.nativeModel(name, callee, c, args, pos, st); ok {
-		return v
+	// H4 patch: an explicit contract for time.Now (ghost clock) takes precedence over the native "arbitrary value" model
+	if !(name == "time.Now" && vc.eng.contractFor(callee) != nil) {
+		if v, ok := fr.nativeModel(name, callee, c, args, pos, st); ok {
+			return v
+		}
 	}
 	if ct := vc.eng.contractFor(callee); ct != nil {
 		if ct.Pure && callee.Signature.Results().Len() == 1 {
@@ -497,7 +525,12 @@ func hasLoop(fn *ssa.Function) bool {
 }
 
 func (fr *Frame) canInline(fn *ssa.Function) bool {
-	if fn.Blocks == nil || fr.depth >= 4 || hasLoop(fn) || countInstrs(fn) > 80 {
+	inlineMax := 80
+	if v, err := strconv.Atoi(os.Getenv("GCV_INLINE_MAX")); err == nil && v > 0 {
+		// experiment (C13): whole-composition check Init;Encode;EncodeInto of loop-free generated encoders
+		inlineMax = v
+	}
+	if fn.Blocks == nil || fr.depth >= 4 || hasLoop(fn) || countInstrs(fn) > inlineMax {
 		return false
 	}
 	if fn.Recover != nil {
@@ -657,6 +690,17 @@ func (fr *Frame) applyContract(callee *ssa.Function, ct *Contract, args []Val, a
 	// effects
 	mods := fr.evalModifies(env, ct)
 	fr.applyMods(st, pre, mods, pos)
+	// H4 patch: `option no-alloc` on a trusted contract: the callee allocates no object (part of what is trusted), so the
+	// allocation pointer does not move and `forall(func(x *T) ...)` facts of the caller survive the call.
+	if ct.Trusted && ct.Options["no-alloc"] {
+		st.heaps["$alloc"] = vc.allocOf(pre)
+	} else if set, known := vc.eng.allocSet(callee); known {
+		if len(set) == 0 {
+			st.heaps["$alloc"] = vc.allocOf(pre)
+		} else {
+			vc.regionAfterCall(st, vc.allocOf(pre), vc.allocOf(st), set)
+		}
+	}
 	// results
 	res := callee.Signature.Results()
 	var vals []Val
@@ -696,7 +740,10 @@ func (fr *Frame) applyMods(st, pre *State, mods []modLoc, pos token.Pos) {
 	mi := map[string]*modInfo{}
 	for _, m := range mods {
 		// frame: the caller must itself be allowed to modify what the callee modifies
-		if fr.top && fr.contract != nil && vc.dry == 0 && !vc.noFrame {
+		// H4 patch: ghost globals (ghostXxx variables of a zz_verif file, e.g. the clock-reading counter) are not subject to
+		// the frame check: ghost state may advance in any function without every contract having to list it.
+		isGhostGlobal := strings.HasPrefix(m.root, "G|") && strings.Contains(m.root, ".ghost")
+		if fr.top && fr.contract != nil && vc.dry == 0 && !vc.noFrame && !isGhostGlobal {
 			if m.whole {
 				ok := false
 				for _, fm := range fr.modLocs {
@@ -708,7 +755,17 @@ func (fr *Frame) applyMods(st, pre *State, mods []modLoc, pos token.Pos) {
 					fr.safety("frame", st, "false", pos, "")
 				}
 			} else {
-				fr.safety("frame", st, implies(m.guard, fr.frameGoal(m.root, m.path, m.base)), pos, "")
+				// a location whose base object is nil denotes no memory at all (the callee cannot write it)
+				g := m.guard
+				if m.base != "" {
+					nz := not(eq(m.base, "0"))
+					if g == "" {
+						g = nz
+					} else {
+						g = and(g, nz)
+					}
+				}
+				fr.safety("frame", st, implies(g, fr.frameGoal(m.root, m.path, m.base)), pos, "")
 			}
 		}
 		for _, h := range vc.heapsUnder(m) {
@@ -723,6 +780,17 @@ func (fr *Frame) applyMods(st, pre *State, mods []modLoc, pos token.Pos) {
 				x.targets = append(x.targets, m.base)
 				x.guards = append(x.guards, m.guard)
 			}
+		}
+	}
+	// ghost globals are outside the frame discipline: every call applied through a contract may have changed them
+	for _, g := range vc.eng.ghostGlobals() {
+		for _, h := range vc.heapsUnder(modLoc{root: "G|" + g.Pkg.Pkg.Path() + "." + g.Name(), whole: true}) {
+			x := mi[h]
+			if x == nil {
+				x = &modInfo{}
+				mi[h] = x
+			}
+			x.whole = true
 		}
 	}
 	fr.havoc(st, pre, mi)
@@ -796,7 +864,6 @@ func (fr *Frame) execInvoke(c *ssa.CallCommon, pos token.Pos, st *State) Val {
 			if m == nil {
 				panic(contractError("type " + tn + " has no method " + c.Method.Name()))
 			}
-			vc.declIface()
 			cond := eq(app("itag", box), vc.typeTag(t))
 			conds = append(conds, cond)
 			bst := st.clone()
@@ -896,6 +963,16 @@ func (fr *Frame) applySigContract(ct *Contract, c *ssa.CallCommon, recv Val, arg
 	pre := st.clone()
 	mods := fr.evalModifies(env, ct)
 	fr.applyMods(st, pre, mods, pos)
+	// H4 patch (allocset.go): interface call: what the implementations may allocate
+	if c.IsInvoke() {
+		if set, known := vc.eng.allocSetInvoke(c); known {
+			if len(set) == 0 {
+				st.heaps["$alloc"] = vc.allocOf(pre)
+			} else {
+				vc.regionAfterCall(st, vc.allocOf(pre), vc.allocOf(st), set)
+			}
+		}
+	}
 	res := sig.Results()
 	var vals []Val
 	penv := &Env{vc: vc, pkg: env.pkg, names: map[string]TV{}, st: st, old: pre}
@@ -1094,6 +1171,17 @@ func (vc *VC) pureCall(st *State, recv TV, name string, args []TV) (Val, types.T
 	if m == nil {
 		return nil, nil, fmt.Errorf("no method %s on %s", name, t)
 	}
+	// H4 patch: a concrete method with a `pure` contract is the same uninterpreted function in contracts as at call sites
+	if ct := vc.eng.contractFor(m); ct != nil && ct.Pure && m.Signature.Results().Len() == 1 && len(m.Params) == len(args)+1 {
+		avs := []Val{recv.V}
+		ats := []types.Type{m.Params[0].Type()}
+		for i, a := range args {
+			avs = append(avs, a.V)
+			ats = append(ats, m.Params[i+1].Type())
+		}
+		rt := m.Signature.Results().At(0).Type()
+		return vc.pureApp(m.String(), rt, nil, nil, avs, ats), rt, nil
+	}
 	if m.Blocks == nil || hasLoop(m) {
 		return nil, nil, fmt.Errorf("method %s is not loop-free; cannot be used in a contract", name)
 	}
@@ -1110,7 +1198,6 @@ func (vc *VC) pureCall(st *State, recv TV, name string, args []TV) (Val, types.T
 	}
 	return res[0], m.Signature.Results().At(0).Type(), nil
 }
-
 
 // applyLemma instantiates a lemma at explicit arguments: returns (requires => ensures) as a ground fact in env's state.
 func (fr *Frame) applyLemma(env *Env, app string, at Clause) string {
@@ -1152,7 +1239,6 @@ func (fr *Frame) applyLemma(env *Env, app string, at Clause) string {
 	}
 	return implies(and(req...), and(ens...))
 }
-
 
 // pureApp builds the uninterpreted application that stands for the result of a `pure` function or interface method:
 // a function of the receiver and arguments only (heap-independent: immutable attributes, A-SEQ for tables).
